@@ -17,6 +17,25 @@ pub enum Event {
     /// Use [`Event::custom`] to make this variant.
     Custom(String, String),
 }
+/// Splits `data` into lines at CRLF, LF, and CR, like an event stream parser does.
+/// Returns at least one line, so an event never encodes to zero bytes.
+fn data_lines(data: &str) -> Vec<&str> {
+    let mut lines = Vec::new();
+    let mut rest = data;
+    loop {
+        let Some(n) = rest.find(['\r', '\n']) else {
+            lines.push(rest);
+            return lines;
+        };
+        lines.push(&rest[..n]);
+        rest = &rest[n..];
+        rest = rest.strip_prefix("\r\n").unwrap_or_else(|| &rest[1..]);
+        if rest.is_empty() {
+            return lines;
+        }
+    }
+}
+
 impl Event {
     /// # Errors
     /// Returns an error when `event` contains newlines.
@@ -43,7 +62,7 @@ impl Event {
                 data
             }
         };
-        for line in data.lines() {
+        for line in data_lines(data) {
             write!(buf, "data: {line}\n")?;
         }
         Ok(original_buf_len - buf.len())
@@ -58,7 +77,7 @@ impl Event {
                 data
             }
         };
-        for line in data.lines() {
+        for line in data_lines(data) {
             write!(buf, "data: {line}\n").unwrap();
         }
     }
